@@ -12,7 +12,7 @@ def cfgOf (good : String) : Cfg := let gs := hexList good; { derOK := fun b => g
 def strOfBytes (b : Bytes) : String := String.fromUTF8! (ByteArray.mk b.toArray)
 
 def consOf (spec : String) : Option Constraints :=
-  if spec == "-" then none
+  if spec == "-" || spec.startsWith "x:" then none        -- "x:…": set on the file and taken back again
   else if spec == "e" then some []
   else some ((spec.splitOn ",").filterMap fun p =>
     match p.splitOn ":" with
